@@ -154,6 +154,10 @@ def _harness(env, case):
         if sym and kind == "poly_orth":
             # general position: the data are not all equal (otherwise the norms vanish)
             env.assume(z3.Or([x[i].e != x[0].e for i in range(1, n)]), "poly: x not constant")
+            if n >= 5:
+                # the statements about poly are invariant under row permutations, so larger data sets are taken sorted and
+                # distinct (ties are covered for n <= 4); this also keeps np.unique from forking over all orderings
+                env.assume(z3.And([x[i].e < x[i + 1].e for i in range(n - 1)]), "poly: data sorted and distinct (n >= 5, without loss of generality up to ties)")
         # a degree that the data cannot support (not more than d distinct values) is refused; any other refusal is not
         try:
             with env.running():
